@@ -292,6 +292,17 @@ class ForLoop(Mapping[str, object]):
     def __len__(self) -> int:
         return len(self._keys)
 
+    # `__iter__` steps through the loop's items, so the mapping views are built
+    # from the helper variable names instead.
+    def keys(self) -> list[str]:  # type: ignore[override]
+        return sorted(self._keys)
+
+    def values(self) -> list[object]:  # type: ignore[override]
+        return [self[key] for key in self.keys()]
+
+    def items(self) -> list[tuple[str, object]]:  # type: ignore[override]
+        return [(key, self[key]) for key in self.keys()]
+
     def __next__(self) -> object:
         self.step()
         return next(self.it)
